@@ -3,6 +3,13 @@
 usage: try_mutants.py <dir-with-mutants> [name ...] [--props Cxx,Cyy] [--tier quick]"""
 import json, os, subprocess, sys, time
 ROOT = os.path.abspath(os.path.join(os.path.dirname(os.path.abspath(__file__)), ".."))
+# with --sandbox the patches are applied to /root/scratch/mut/repo and checked by /root/scratch/mut/verif (tools/mut_sandbox.sh),
+# so neither /repo nor /verif's build directories are touched
+SANDBOX = "--sandbox" in sys.argv
+REPO = "/root/scratch/mut/repo" if SANDBOX else "/repo"
+if SANDBOX:
+    ROOT = "/root/scratch/mut/verif"
+ENV = dict(os.environ, EVENIO_REPO=REPO)
 base = sys.argv[1]
 names = [a for a in sys.argv[2:] if not a.startswith("--")]
 extra_props = None
@@ -20,16 +27,16 @@ for n in names:
     meta = json.load(open(os.path.join(d, "meta.json"))) if os.path.exists(os.path.join(d, "meta.json")) else {}
     prop = meta.get("property", n.split("_")[0])
     props = extra_props or [prop]
-    st = subprocess.run(["git", "-C", "/repo", "status", "--porcelain", "--untracked-files=no"], capture_output=True, text=True).stdout.strip()
+    st = subprocess.run(["git", "-C", REPO, "status", "--porcelain", "--untracked-files=no"], capture_output=True, text=True).stdout.strip()
     if st:
         print("repo not clean:", st); sys.exit(1)
-    r = subprocess.run(["git", "-C", "/repo", "apply", os.path.join(d, "patch.diff")], capture_output=True, text=True)
+    r = subprocess.run(["git", "-C", REPO, "apply", os.path.join(d, "patch.diff")], capture_output=True, text=True)
     if r.returncode != 0:
         rows.append((n, prop, "patch-does-not-apply", r.stderr[:100])); continue
     try:
         for p in props:
             t0 = time.time()
-            c = subprocess.run([os.path.join(ROOT, "check"), p, "--tier", tier], capture_output=True, text=True, cwd=ROOT)
+            c = subprocess.run([os.path.join(ROOT, "check"), p, "--tier", tier], capture_output=True, text=True, cwd=ROOT, env=ENV)
             viol = [l for l in c.stdout.split("\n") if l.startswith("VIOLATION")]
             detail = ""
             lines = c.stdout.split("\n")
@@ -39,7 +46,7 @@ for n in names:
             rows.append((n, p, f"rc={c.returncode} {'NFI' if any('no-failing-input-found' in v for v in viol) else ('VIOL' if viol else 'quiet')}", f"{round(time.time()-t0)}s {detail}"))
             print(rows[-1], flush=True)
     finally:
-        subprocess.run(["git", "-C", "/repo", "checkout", "--", "."], capture_output=True)
+        subprocess.run(["git", "-C", REPO, "checkout", "--", "."], capture_output=True)
 print()
 for r in rows:
     print(" | ".join(r))
